@@ -96,7 +96,8 @@ def certify_results(ctx: Ctx, batch: List[tuple]):
         elif closed is not True:
             ctx.violation(f"solution-open:{sig}", f"solve() call {k+1} returned an open tree {s!r} for {text!r} [{sett}]", replay)
         elif root_ok is not True:
-            ctx.violation(f"solution-wrong-root:{sig}", f"solve() call {k+1} returned a tree rooted in {t[1]!r} (requested {pb.get('start_symbol') or '<start>'}) for {text!r}", replay)
+            wr = "start-symbol-wrapped-in-<start>" if (pb.get("start_symbol") and t[1] == "<start>" and t[2] and len(t[2]) == 1 and t[2][0][1] == pb["start_symbol"]) else sig
+            ctx.violation(f"solution-wrong-root:{wr}", f"solve() call {k+1} returned a tree rooted in {t[1]!r} (requested {pb.get('start_symbol') or '<start>'}) for {text!r}", replay)
         elif verdict is False:
             ctx.violation(f"solution-violates-constraint:{sig}", f"solve() call {k+1} returned {s!r}, which violates {text!r} under the specification [{sett}]", replay)
         elif verdict is True:
